@@ -4,7 +4,8 @@ the update_state bookkeeping.  Property text: growth/X11.json.
 
 spec   : spec/EcuFlowsContract.tla (clauses SS1..SS8, SB, LS1..LS6, LB, TX1..TX7, RF1..RF4, BK, L0; sources in its
          header), spec/EcuFlows.tla (design, one action per await point, abstract ECU), MC_EcuFlows_{set,leave,xfer,
-         xferlong,refresh,book}; negative controls MC_EcuFlows_dev* (devS1 / devS2 = the two suspected defects)
+         xferlong,refresh,book3} (+ book, book5, leaveedge in the thorough tier); negative controls MC_EcuFlows_dev*
+         (devS1 / devS2 = the two defects found: findings/X11-S1-*, findings/X11-S2-*)
 binding: the REAL ECU object.  set_session with a REAL DBHandler (aiosqlite, temp file, normal asyncio loop; the rows
          are written with insert_session_transition as the session scan does; get_session_transition is observed by
          wrapping the bound method); the other flows on harness.fakes.ScriptedTransport under virtual time, leave_session
@@ -28,7 +29,9 @@ from harness import x11_cases as cs
 from harness import x11_flows as xf
 from harness.common import Machinery, Report, quiet_gallia_logging
 
-MC = ["set", "leave", "xfer", "xferlong", "refresh", "book"]
+MC = ["set", "leave", "xfer", "xferlong", "refresh", "book3"]
+# short TLC runs: C1 only, few GC / compiler threads (the sandbox is shared; JVM start-up dominates their CPU time)
+JVM_SMALL = "-XX:TieredStopAtLevel=1 -XX:ParallelGCThreads=2 -XX:CICompilerCount=1"
 NEG_CONTROLS = {
     "devS1": "SS2/", "devS2": "TX5/", "devWrap": "TX1/", "devNoWait": "LS4/", "devNoPc": "LS3/", "devNoDb": "SS5/",
     "devRefresh": "RF2/", "devKey": "BK/", "devNoPost": "SS7/",
@@ -37,12 +40,17 @@ RUNNERS = {"leave": xf.run_leave, "xfer": xf.run_xfer, "refresh": xf.run_refresh
 
 
 # ------------------------------------------------------------------ design layer
-def _mc_start() -> tuple[Any, list[tuple[str, str | None]], list[Any]]:
-    jobs: list[tuple[str, str | None]] = [(c, None) for c in MC] + list(NEG_CONTROLS.items())
+MC_THOROUGH = ["book5", "book", "leaveedge"]
+
+
+def _mc_start(tier: str) -> tuple[Any, list[tuple[str, str | None]], list[Any]]:
+    jobs: list[tuple[str, str | None]] = [(c, None) for c in (MC_THOROUGH if tier == "thorough" else [])]  # long ones first
+    jobs += [(c, None) for c in MC] + list(NEG_CONTROLS.items())
 
     def one(j: tuple[str, str | None]) -> Any:
-        return tlc.run_tlc("MC_EcuFlows", f"MC_EcuFlows_{j[0]}.cfg", workers=1 if j[1] else 2, timeout=900,
-                           coverage=j[1] is None and j[0] != "book", heap="2g")
+        return tlc.run_tlc("MC_EcuFlows", f"MC_EcuFlows_{j[0]}.cfg", workers=1 if j[1] else 6 if j[0] == "book5" else 2, timeout=1500,
+                           coverage=j[1] is None and not j[0].startswith("book"), heap="2g",
+                           env=None if j[0] in ("book5", "book") else {"JAVA_TOOL_OPTIONS": JVM_SMALL})
 
     ex = ThreadPoolExecutor(max_workers=5)
     return ex, jobs, [ex.submit(one, j) for j in jobs]
@@ -76,7 +84,7 @@ def _mc_finish(rep: Report, started: tuple[Any, list[tuple[str, str | None]], li
     rep.extra["design_action_coverage"] = {a: cov[a] for a in actions}
     rep.extra["design_layer_not_vacuous"] = ("every action of the set / leave / xfer / refresh parts of EcuFlows is taken (TLC "
                                              "-coverage, counts in design_action_coverage); the book part has the two actions "
-                                             "BStep / BRet, both needed to reach its 108 482 states")
+                                             "BStep / BRet, both needed to reach its states")
     rep.extra["negative_controls"] = {k: v for k, v in NEG_CONTROLS.items()}
 
 
@@ -120,7 +128,7 @@ def _validate(traces: list[dict[str, Any]], rep: Report | None) -> dict[int, tup
 
     def one(sub: list[dict[str, Any]]) -> Any:
         return tlc.validate_batch("Trace_EcuFlows", "Trace_EcuFlows.cfg", {"traces": [{"id": t["id"], "ev": t["ev"]} for t in sub]},
-                                  timeout=1500, workers=1, heap="3g", env={"JAVA_TOOL_OPTIONS": "-Xss64m"})
+                                  timeout=1500, workers=1, heap="3g", env={"JAVA_TOOL_OPTIONS": "-Xss64m " + JVM_SMALL})
 
     with ThreadPoolExecutor(max_workers=5) as ex:
         results = list(ex.map(one, jobs))
@@ -191,7 +199,8 @@ def _spec_to_code(rep: Report, tier: str, seed: int) -> tuple[list[dict[str, Any
     cases, designs = [], []
 
     def one(c: str) -> Any:
-        return tlc.simulate_behaviours("MC_EcuFlows", f"MC_EcuFlows_{c}.cfg", num=per, depth=120, seed=seed + 3, timeout=900)[1]
+        return tlc.simulate_behaviours("MC_EcuFlows", f"MC_EcuFlows_{c}.cfg", num=per, depth=120, seed=seed + 3, timeout=900,
+                                       env={"JAVA_TOOL_OPTIONS": JVM_SMALL})[1]
 
     with ThreadPoolExecutor(max_workers=4) as ex:
         allb = list(ex.map(one, ["set", "leave", "xfer", "refresh"]))
@@ -281,7 +290,7 @@ def run(tier: str, seed: int) -> Report:
         "return value of leave_session; transmit_data with empty data; the security level after refresh_state read a "
         "different session; whether refresh_state raises when the ECU does not answer positively",
     ]
-    mc = _mc_start()
+    mc = _mc_start(tier)
     cases = build_cases(tier, seed)
     n_enum = len(cases)
     sim_cases, designs = _spec_to_code(rep, tier, seed)
